@@ -388,6 +388,10 @@ def strategy(tier):
 _REAL_RANDN = torch.randn
 
 
+class _StructureChange(Exception):
+    """shifting one recorded draw changed how many / which shapes of draws the sampler asks for"""
+
+
 class Tape:
     """record: pass through to the real torch.randn and keep a copy of every output;
     replay: return the recorded outputs in order, optionally with `step` added to one element of one draw."""
@@ -777,6 +781,8 @@ def _check(case):
             if info["kind"] == "?":
                 info["kind"] = _kind(op)
             s = op.zero_mean_mvn_samples(k)
+        if not tape.recording and delta is not None and (tape.mismatch or tape.pos != len(tape.rec)):
+            raise _StructureChange(tape.mismatch or "number of draws changed")
         if not tape.recording and (tape.mismatch or tape.pos != len(tape.rec)):
             raise HarnessError(
                 "replay consumed the tape differently from the recording: %s (calls %d, recorded %d) for %s"
@@ -840,9 +846,14 @@ def _check(case):
         def safe_run(delta):
             try:
                 return run(delta)
-            except (HarnessError, _Unavailable, _BuildFailed):
+            except (HarnessError, _Unavailable, _BuildFailed, _StructureChange):
                 raise
             except Exception as e:
+                if delta is not None and tape.mismatch:
+                    # the shifted draw is not a normal variate of the sample but a probe that decides the STRUCTURE of the
+                    # computation (a Lanczos start vector: another Krylov dimension, another number / shape of later draws);
+                    # the replayed tape no longer fits and the exception is the harness's doing
+                    raise _StructureChange(tape.mismatch)
                 fail("cov", "exc:" + X.describe(e), "sampling raised %r when the normal draw %s was shifted" % (e, (delta,)))
 
         S0b = safe_run(None)
@@ -858,8 +869,11 @@ def _check(case):
         for d, t in enumerate(tape.rec):
             flat = t.reshape(-1)
             for j in range(flat.numel()):
-                s1 = safe_run((d, j, 1.0))
-                s2 = safe_run((d, j, 2.0))
+                try:
+                    s1 = safe_run((d, j, 1.0))
+                    s2 = safe_run((d, j, 2.0))
+                except _StructureChange as e:
+                    return done("skip:draw_shift_changes_structure", extra=["structure_change:" + str(e)[:80]])
                 if tuple(s1.shape) != want_shape or tuple(s2.shape) != want_shape:
                     fail("shape", "shape", "sample shape changes with the values of the normal draws")
                 d1s.append(s1.detach().to(torch.float64).reshape(-1) - s0)
